@@ -698,3 +698,47 @@ def rs11(prog, rr):
             rr.finding(f, c, "ExpandSolveOrderVisitor.expand", "RS11: the walk of one side of a solve_order directive is skipped under %s: the "
                        "dependency is then never recorded and a chain a<b<c loses its transitivity when the middle field is not random in "
                        "this call" % extra, text="conditional expand")
+
+
+# --------------------------------------------------------------------------------------- FT18
+@rule("FT18", ["C18"], "part-select write keeps the bits outside the mask and replaces those inside; read and write use the same mask", engine="DF", floor=3)
+def ft18(prog, rr):
+    tb = prog.cls("type_base")
+    st_, gt_ = tb.methods.get("__setitem__"), tb.methods.get("__getitem__")
+    rr.require(st_ is not None and gt_ is not None, "type_base.__getitem__/__setitem__ not found")
+    merges = [n for n in walk_local(st_.node) if isinstance(n, ast.Assign) and isinstance(n.value, ast.BinOp) and isinstance(n.value.op, ast.BitOr)]
+    rr.require(merges, "no (old & ~mask) | (new & mask) merge found in type_base.__setitem__")
+    cur = {n.targets[0].id for n in walk_local(st_.node) if isinstance(n, ast.Assign) and len(n.targets) == 1 and isinstance(n.targets[0], ast.Name)
+           and "get_val()" in norm(n.value)}
+    for m in merges:
+        l, r = m.value.left, m.value.right
+        rr.inst("part-select merge %s" % norm(m.value))
+        keep = l if isinstance(l, ast.BinOp) and isinstance(l.op, ast.BitAnd) else None
+        if keep is None:
+            rr.finding(st_, m, "type_base.__setitem__", "FT18: the current value is not masked before the new bits are OR-ed in (%s)" % norm(m.value), text="merge no keep-mask")
+            continue
+        inv = [x for x in (keep.left, keep.right) if isinstance(x, ast.UnaryOp) and isinstance(x.op, ast.Invert)]
+        other = [x for x in (keep.left, keep.right) if not (isinstance(x, ast.UnaryOp) and isinstance(x.op, ast.Invert))]
+        if not inv:
+            rr.finding(st_, m, "type_base.__setitem__", "FT18: the part-select write keeps `%s` - the bits INSIDE the mask - instead of the bits outside it "
+                       "(old & ~mask): every bit that was not selected is cleared" % norm(keep), text="merge keeps inside")
+            continue
+        M = norm(inv[0].operand)
+        if not (other and isinstance(other[0], ast.Name) and other[0].id in cur):
+            rr.finding(st_, m, "type_base.__setitem__", "FT18: the kept part (%s) is not the field's current value" % norm(keep), text="merge keep operand")
+        ins = [x for x in ast.walk(r) if isinstance(x, ast.BinOp) and isinstance(x.op, ast.BitAnd) and M in (norm(x.left), norm(x.right))]
+        if not ins:
+            rr.finding(st_, m, "type_base.__setitem__", "FT18: the new bits (%s) are not limited to the mask %s: a value wider than the selection "
+                       "overwrites neighbouring bits" % (norm(r), M), text="merge new unmasked")
+    # sibling agreement: the slice mask of the write equals the slice mask of the read
+    def slice_mask(f):
+        out = []
+        for n in walk_local(f.node):
+            if isinstance(n, ast.Assign) and len(n.targets) == 1 and isinstance(n.targets[0], ast.Name) and "start" in norm(n.value) and "<<" in norm(n.value):
+                out.append(norm(n.value).replace(f.params[1], "RNG"))
+        return out
+    ms, mg = slice_mask(st_), slice_mask(gt_)
+    rr.inst("slice masks: read %s write %s" % (mg, ms))
+    if ms and mg and set(ms) != set(mg):
+        rr.finding(st_, st_.node, "type_base.__setitem__", "FT18: the write selects bits with %s but the read with %s: writing f[hi:lo] and reading it back "
+                   "do not address the same bits" % (ms, mg), text="read/write masks differ")
